@@ -126,8 +126,18 @@ def run_case(case):
     cfg['history'] = history
     cov['config']['history/%s/%s%s' % (history, kind, '/filehash' if filehash else '')] = 1
 
+    # force_format=False: a resource whose extension the dumper does not write is left out of the dump - and of its totals
+    discarded = None
+    if fmt == 'csv' and history == 'fresh' and nres >= 2 and boot.rng(case['seed'], 'C09', 'noforce', case['idx']).random() < 0.15:
+        discarded = res[rng.randrange(nres)]['name']
+        opts['force_format'] = False
+        cfg['force_format_false_discards'] = discarded
+        cov['config']['force_format_false/one_resource_discarded'] = 1
+
     def dump(out, sources=None):
         steps = sources or [lab.source(r['name'], r['fields'], r['rows']) for r in res]
+        if discarded:
+            steps.append(d.update_resource(discarded, path=discarded + '.tsv'))
         steps.append(d.update_package(name='pkg'))
         steps.append(d.dump_to_path(out, **copy.deepcopy(opts)) if kind == 'path'
                      else d.dump_to_zip(out, **copy.deepcopy(opts)))
@@ -181,7 +191,12 @@ def run_case(case):
         tot_bytes = tot_rows = 0
         hashes1 = {}
         bytes1 = {}
-        for rd, r in zip(wd['resources'], res):
+        listed = [rd_['name'] for rd_ in wd['resources']]
+        want_listed = [r_['name'] for r_ in res if r_['name'] != discarded]
+        if listed != want_listed:
+            add('resources_listed', 'written descriptor lists %r, expected %r' % (listed, want_listed), 'resources_listed')
+        by_name = {r_['name']: r_ for r_ in res}
+        for rd, r in [(rd_, by_name[rd_['name']]) for rd_ in wd['resources'] if rd_['name'] in by_name]:
             path = rd.get('path')
             if not w.exists(path):
                 add('path', 'recorded path %r is not a written file (%r)' % (path, w.listing()), 'recorded_path_missing')
